@@ -114,12 +114,47 @@ TIsApproxItems(ev) ==
      \o (IF FLe(FMulInt(smax, 8), eps) THEN << Item("abs_close_accepted", Must(TRUE, ev.zs)) >> ELSE << >>)
      \o (IF FLe(FMulInt(eps, 8), FMin(smax, FDivInt(smax, 2))) THEN << Item("abs_far_rejected", Must(FALSE, ev.zs)) >> ELSE << >>)
 
+-----------------------------------------------------------------------------
+(* Beyond the listed properties: tangents form a vector space (every operator form is the IEEE operation on the
+   coefficients: within one unit round-off of the exact result), Jacobian*Tangent is the matrix-vector product,
+   pi2pi wraps into [-pi, pi] by a whole number of turns, toRad/toDeg scale by pi/180, Random() is valid. *)
+OneUlp(ev, got, exact) == VRatio(got, exact, [i \in 1..Len(exact) |-> FAdd(FMul(FMulInt(UOf(ev), 2), FAbs(exact[i])), FloorOf(ev))])
+TArithItems(ev) ==
+  LET a == DV(ev.t)  b == DV(ev.s)  k == D(ev.k)  n == Len(a)  J == DM(ev.J)
+      jt == MVec(J, a)
+      jtol == [i \in 1..n |-> FAdd(FMul(WPOf(ev), VDot([j \in 1..n |-> FAbs(J[i][j])], [j \in 1..n |-> FAbs(a[j])])), FloorOf(ev))]
+  IN << Item("add", OneUlp(ev, DV(ev.add), VAdd(a, b))), Item("sub", OneUlp(ev, DV(ev.sub), VSub(a, b))),
+        Item("neg", IF DV(ev.neg) = VNeg(a) THEN 0 ELSE BADR),
+        Item("muls", OneUlp(ev, DV(ev.muls), VScale(a, k))), Item("smul", IF ev.smul = ev.muls THEN 0 ELSE BADR),
+        Item("divs", OneUlp(ev, DV(ev.divs), [i \in 1..n |-> FDiv(a[i], k)])),
+        Item("compound", IF ev.pe = ev.add /\ ev.me = ev.sub /\ ev.te = ev.muls /\ ev.de = ev.divs THEN 0 ELSE BADR),
+        Item("Jt", VRatio(DV(ev.Jt), jt, jtol)),
+        Item("zero", IF \A i \in 1..n : D(ev.zero[i]) = Z THEN 0 ELSE BADR) >>
+MiscItems(ev) ==
+  LET g == ev.g
+      twoPi == FMulInt(Pi, 2)
+      wrapOK(i) == LET th == D(ev.th[i])  r == D(ev.wrapped[i])
+                       kabs == IF ev.turns[i] < 0 THEN -ev.turns[i] ELSE ev.turns[i]
+                       \* the routine subtracts 2 pi once per turn: one rounding at magnitude |theta| per turn
+                       sc == FAdd(FMulInt(WPOf(ev), 4), FMulInt(FMul(UOf(ev), FAbs(th)), kabs + 8))
+                   IN /\ FLe(FAbs(FSub(FSub(th, FMulInt(twoPi, ev.turns[i])), r)), sc)
+                      /\ FLe(FAbs(r), FAdd(Pi, sc))
+      deg == D(ev.deg)
+      radX == FDivInt(FMul(deg, Pi), 180)
+  IN << Item("pi2pi", IF \A i \in 1..Len(ev.th) : wrapOK(i) THEN 0 ELSE BADR),
+        Item("toRad", VRatio(<<D(ev.rad)>>, <<radX>>, <<FAdd(FMul(FMulInt(UOf(ev), 4), FAbs(radX)), FloorOf(ev))>>)),
+        Item("toDeg", VRatio(<<D(ev.deg2)>>, <<deg>>, <<FAdd(FMul(FMulInt(UOf(ev), 8), FAbs(deg)), FloorOf(ev))>>)),
+        Item("random_valid", FRatioMilli(Dev(g, DV(ev.a)), FMulInt(IF ev.sc = "f" THEN FMulInt(FPow2(-23), 100) ELSE FMulInt(FPow2(-52), 100), 2))),
+        Item("random_finite", IF FinV(ev.a) /\ FinV(ev.rt) THEN 0 ELSE BADR) >>
+
 AVerdict(ev) ==
   CASE ev.e = "interp" -> IF ev.pk = "nan" \/ AllFinite(ev) THEN InterpItems(ev) ELSE BadFinite
     [] ev.e = "phi" -> PhiItems(ev)
     [] ev.e = "avg" -> AvgItems(ev)
     [] ev.e = "isapprox" -> IsApproxItems(ev)
     [] ev.e = "tisapprox" -> TIsApproxItems(ev)
+    [] ev.e = "tarith" -> TArithItems(ev)
+    [] ev.e = "misc" -> MiscItems(ev)
     [] OTHER -> Verdict(ev)
 ANext == /\ l <= Len(Tr) /\ l' = l + 1
          /\ PrintT(ToJson(<<"V", l, ThetaClass(Tr[l]), LinClass(Tr[l]), GapClass(Tr[l]), AVerdict(Tr[l])>>))
